@@ -317,5 +317,9 @@ def replay(path, v, pid):
     rows = obj["events"]
     if rows and rows[0]["ev"] != "conf":
         rows = [obj["conf"]] + rows
+    for r in rows:      # replay files written before the second pool was recorded
+        if r["ev"] == "end":
+            r.setdefault("twin_ids", [])
+            r.setdefault("twin_shots", 0)
     validate(v, pid, rows, d, "replay")
     return None
